@@ -11,6 +11,11 @@
    component is accepted.  Go's map iteration order (which failing validator's error is returned)
    is absorbed by the label: the observed error must be the error of *some* failing validator.
 
+   The context handed to Aggregate is NOT consulted by the loop over validators nor before the
+   subscribers run (it only reaches the verifier, tracing and logging); the label records when the
+   harness cancelled it ([l_cancel]) and the model's answer does not depend on it -- a version that
+   stops early on cancellation and still publishes is refused by [accepts] and by the monitor.
+
    Cryptography is symbolic (DESIGN.md section 3).  A partial signature is a term:
      PSig v j rho   made with the key share j of validator v over the signing root rho
      SOther k       a well-formed curve point that is no such signature (signature under an
@@ -163,6 +168,10 @@ Record label := mkl {
   l_t : nat;
   l_batch : batch;
   l_subs : list bool;                 (* per subscriber, in registration order: true = returns nil *)
+  l_cancel : N;                       (* when the caller's context was cancelled: 0 never, 1 before the call,
+                                         k+1 right after the k-th verifier invocation.  Aggregate does not
+                                         consult ctx anywhere in its loop, so [accepts] and [monitor1] ignore
+                                         this field: a cancellation must not change what is published *)
   l_err : option err;                 (* None = Aggregate returned nil *)
   l_calls : list (list (N * pobs))    (* the set received by each subscriber call, in call order *)
 }.
